@@ -252,6 +252,9 @@ def sched_families(tier, seed, rng, prop, n_random_q, n_random_t, n_tlc_q, n_tlc
     fams.append(Family("sched-directed", "sched", "SchedTrace",
                        sched_gen.generate_directed(n_random_q if quick else n_random_t, seed * 43 + int(prop[1:])),
                        env={"VERIF_FLUSH": "1"}))
+    fams.append(Family("sched-gc", "sched", "SchedTrace",
+                       sched_gen.generate_gcblock(max(40, (n_random_q if quick else n_random_t) // 3), seed * 47 + int(prop[1:])),
+                       env={"VERIF_FLUSH": "1"}))
     cfg = "GenDBImpl2.cfg" if quick else "GenDBImpl3.cfg"
     r = core.tlc("GenDBImpl", cfg=cfg, subdir="gen", workers=1, heap="6g", timeout=1500)
     if not r["ok"]:
@@ -397,11 +400,11 @@ PROPS = {
                     "up to 4 change iterators created at arbitrary points (also in aborted transactions); Next with "
                     "fresh/retained snapshots and write transactions holding uncommitted changes of the table, full and "
                     "partial consumption, re-inserts after deletes, virtual-time graveyard collection in between; "
-                    "non-trivial = Next after a delete", _nt_iter),
+                    "non-trivial = Next after a delete", _nt_iter, extra_modes=(("gcwindow", 150, 3000),)),
     "C08": _db_prop("C08", "c08", 400, 8000,
                     "as C07 with graveyard size observed (public Metrics) after virtual-time waits: lower bound always, "
                     "exact after quiescence; non-trivial = Next after a delete", _nt_iter,
-                    extra_modes=(("sched", 100, 2000),)),
+                    extra_modes=(("gcwindow", 200, 4000), ("sched", 100, 2000))),
     "C09": _db_prop("C09", "c09", 300, 6000,
                     "as C03 plus Table.Revision on every source and ByRevision queries for bounds 0..8; non-trivial = "
                     ">= 2 writes", _nt_write),
